@@ -26,11 +26,20 @@ ASSUMPTIONS = [
     'NumPy ufuncs, sort, cumsum, broadcasting and ODL space arithmetic (lincomb, inner, ufuncs on product spaces) '
     'behave as modelled (validated by the correspondence, not proved)',
     'flat weighted-list model of spaces: <x,y> = sum w_i x_i y_i (checked per generated space against space.inner)']
-TRUSTED = ['C07/Model.v hand-written value-level model of every factory / binding (tied by the correspondence)',
+TRUSTED = ['C07/Model.v hand-written value-level model of the closed-form factory bodies (tied by the correspondence); the '
+           'class -> factory bindings, the rule wiring of functional.py and the operator expressions of the rule factories are '
+           'REGENERATED (translate/prox_bindings.py -> Gen/ProxBindings.v) and proved equal to the model in C07/Bindings.v',
+           'translate/prox_bindings.py (Python ast -> terms of C07/BindSyntax.v, fail-closed) and the value-level reading of '
+           'ConstantOperator / IdentityOperator / MultiplyOperator / operator +,-,* in C07/Bindings.v',
            'harness/c07.py tree builder (same tree -> ODL object and Coq term; it applies the scalar merging of '
            'OperatorLeftScalarMult.__init__ to the Coq term)',
            'values of the KL functionals are not executable (ln): their theorems are stated over R-level definitions and only '
            'their proximal formulas are compared with the code']
+
+
+def translate():
+    from translate import prox_bindings as PB
+    return {'Gen/ProxBindings.v': PB.translate()}
 
 
 # ------------------------------------------------------------------ spaces
